@@ -50,7 +50,7 @@ class PathCut(Exception):
 # symbolic values
 # ------------------------------------------------------------------------------------------
 class SV:
-    __slots__ = ("kind", "t", "k", "r", "items", "cls", "ref", "py", "extra")
+    __slots__ = ("kind", "t", "k", "r", "items", "cls", "ref", "py", "extra", "rec_term")
 
     def __init__(self, kind, **kw):
         self.kind = kind
@@ -659,6 +659,13 @@ class Engine:
         if known is not None:
             return known
         cands = candidates or CLASSES
+        # only the classes the path still allows (one cheap feasibility query each, cached per path length)
+        allowed = self.feasible_classes(sv.cls)
+        cands = [n for n in cands if n in allowed] or list(cands)
+        if len(cands) == 1:
+            self.p.known_cls[sv.cls.get_id()] = cands[0]
+            self.p.keep.append(sv.cls)
+            return cands[0]
         conds = [sv.cls == CLS[n] for n in cands]
         feas = []
         for n, c_ in zip(cands, conds):
